@@ -302,7 +302,7 @@ MUTANTS = [
     ('slice-rest-elif', 'miasmx/expression/expression.py', "    if start !=0:\n        rest.append((0, start))\n    if stop < size:", "    if start !=0:\n        rest.append((0, start))\n    elif stop < size:", 'C11.D5'),
     ('aff-slice-unsorted', 'miasmx/expression/expression.py', "all_a = sorted([(src, dst.start, dst.stop)] + rest, key=lambda x:x[1])", "all_a = [(src, dst.start, dst.stop)] + rest", 'C11.D5'),
     ('movzx-slot', 'miasmx/arch/ia32_sem.py', "                                    (b, 0, b.get_size())]))]", "                                    (b, 8, b.get_size())]))]", 'C11.D3'),
-    ('xchg-double', 'miasmx/arch/ia32_sem.py', "    e.append(ExprAff(a, b))\n    e.append(ExprAff(b, a))\n    return e\n\ndef movzx", "    e.append(ExprAff(a, b))\n    e.append(ExprAff(a, a))\n    return e\n\ndef movzx", 'C11.D4'),
+    ('xchg-double', 'miasmx/arch/ia32_sem.py', "    return [ExprAff(a, va), ExprAff(b, vb)]\n\ndef xchg", "    return [ExprAff(a, va), ExprAff(a, vb)]\n\ndef xchg", 'C11.D4'),
     ('lea-unbound', 'miasmx/arch/ia32_sem.py', "    src = b.arg\n    if src.get_size() > a.get_size():", "    src = bb.arg\n    if src.get_size() > a.get_size():", 'C11.D1'),
     ('lea16-untruncated', 'miasmx/arch/ia32_sem.py', "        src = src[:a.get_size()]\n    return [ExprAff(a, src)]", "        pass\n    return [ExprAff(a, src)]", 'C11.D3'),
     ('eip-16bit-destination', 'miasmx/arch/ia32_sem.py', "    else:\n        dst = zeroext32(dst)\n    return ExprAff(eip, dst)", "    return ExprAff(eip, dst)", 'C11.D3'),
